@@ -357,8 +357,21 @@ func C16(p *core.Program, r *core.Report) {
 	// unregisterConvergence: deactivate precedes Delete, same instance
 	uc := p.Func(claPkg, "Manager", "unregisterConvergence")
 	nU := 0
-	for _, d := range core.CallsTo(uc, "sync.Map.Delete") {
+	var removals []ssa.CallInstruction
+	removals = append(removals, core.CallsTo(uc, "sync.Map.Delete")...)
+	removals = append(removals, core.CallsTo(uc, "sync.Map.LoadAndDelete")...)
+	for _, d := range removals {
 		nU++
+		// the entry leaves the registry only if it is the very instance that is being unregistered
+		okSame := false
+		for _, c := range core.DominatingConds(d.Block()) {
+			if b, ok := c.V.(*ssa.BinOp); ok && ((b.Op == token.NEQ && !c.True) || (b.Op == token.EQL && c.True)) {
+				if (pathEndsWith(b.X, "conv") && b.Y == ssa.Value(uc.Params[1])) || (pathEndsWith(b.Y, "conv") && b.X == ssa.Value(uc.Params[1])) {
+					okSame = true
+				}
+			}
+		}
+		r.Check(okSame, "unregister/"+fname(uc)+"/same-instance", "an entry is removed from the registry only after the registered element was found to wrap the very adapter that is unregistered (unregistering a refused second instance must leave the running first one alone)", p.Pos(d.Pos()), "", "the entry is removed before / without the same-instance test: unregistering another instance with the same address makes the started adapter vanish without being stopped")
 		deacts := core.CallsTo(uc, claPkg+".convergenceElem.deactivate")
 		ok := len(deacts) > 0 && core.MustPassBefore(d, func(i ssa.Instruction) bool {
 			for _, x := range deacts {
